@@ -882,15 +882,26 @@ func main() {
 			self, "child-compact", hydPath, strconv.Itoa(maxBlock))
 		var stderr bytes.Buffer
 		cmd.Stderr = &stderr
+		badTrace := func(why string) {
+			// the real compaction did not run to completion / is not traceable: reported as a trace the
+			// model rejects (code 1), never silently skipped
+			run.Add("(KC_trace [CRenameTmpHyd; CRenameTmpHyd] FBad)", map[string]interface{}{"kind": "trace", "error": why, "max_block": maxBlock}, true)
+			run.Hist("trace_failed")
+			os.RemoveAll(dir)
+		}
 		if err := cmd.Run(); err != nil {
-			fmt.Fprintln(os.Stderr, "strace child failed:", err, stderr.String())
-			os.Exit(4)
+			if _, ok := err.(*exec.ExitError); !ok {
+				fmt.Fprintln(os.Stderr, "cannot run strace:", err)
+				os.Exit(4)
+			}
+			badTrace("compaction in the traced child failed: " + strings.TrimSpace(stderr.String()))
+			continue
 		}
 		logb, _ := os.ReadFile(logPath)
 		ops, err := parseTrace(string(logb), tmpPath, hydPath)
 		if err != nil {
-			fmt.Fprintln(os.Stderr, "cannot parse strace log:", err)
-			os.Exit(4)
+			badTrace("cannot parse strace log: " + err.Error())
+			continue
 		}
 		newObs := readHyd(hydPath)
 		newBytes, _ := os.ReadFile(hydPath)
